@@ -89,7 +89,7 @@ PROPS = {
         title='Every accepted derive request expands to code that compiles',
         theorems=[],
         streams=[stream('all', 'whole', faults=0.05, n=(4000, 60000))],
-        k2=['eq', 'hash', 'ord', 'ordlayout', 'debug', 'clone', 'default', 'deref', 'into', 'union', 'bounds'],
+        k2=['eq', 'hash', 'ord', 'ordlayout', 'debug', 'clone', 'default', 'deref', 'into', 'union', 'bounds', 'generics'],
         k2_ops=['compile', 'crash'], k2_n=(25, 300),
     ),
     'C11': dict(
@@ -108,6 +108,7 @@ PROPS = {
         title="Explicit bound modes and the type's own generics are honoured verbatim",
         theorems=[],
         streams=[stream('hdr', 'headers', kinds=('struct', 'enum', 'union'), faults=0.0, n=(3000, 50000))],
+        k2=['generics', 'bounds'], k2_n=(100, 1500),
     ),
     'C13': dict(
         title='Contradictory, ambiguous or misplaced attributes are rejected, not guessed',
@@ -247,6 +248,12 @@ def run_check(pid, tier, seed):
                         dict(theorem=o['name'], detail=o['detail']), found_input=False)
     for b in bad:
         report.fail('forbidden:' + b, 'forbidden construct in the development: ' + b, found_input=False)
+    chk = None
+    if tier == 'thorough' and P['theorems']:
+        okc, ax = vlib.coqchk(P.get('modules') or ['Educe.Properties.%s' % pid])
+        chk = dict(ok=okc, axioms=ax)
+        if not okc:
+            report.fail('coqchk:' + pid, 'coqchk does not accept the compiled property modules, or finds axioms: %s' % ax[:300], found_input=False)
     # 2. K1 correspondence under the property's view
     evaluations = 0
     distinct = 0
@@ -294,7 +301,7 @@ def run_check(pid, tier, seed):
                evaluations=evaluations, distinct_nontrivial=distinct,
                rule='K1: seeded structured derive inputs (valid + one-invalid-construct); distinct_nontrivial = number of distinct non-empty real expansions',
                k1=dict((k, v) for k, v in sorted(stats.items())), k2=k2_stats, direct=direct_stats,
-               samples=samples or [dict(note='no sample')], known_findings_reproduced=sorted(report.known_hit.keys()))
+               samples=samples or [dict(note='no sample')], known_findings_reproduced=sorted(report.known_hit.keys()), coqchk=chk)
     vlib.write_evidence(pid, tier, seed, 'proof', cov,
                         ['field types and user methods are arbitrary (universally quantified interp)',
                          'equality of flattened token sequences stands for equality of generated code'],
